@@ -264,10 +264,14 @@ def run_case(tier, seed, i):
     tags = [which, f"min_freq_{mf}"]
     sample = case.describe()
     sample["estimator"] = which
+    n_jobs = 2 if (rng.random() < 0.08 and len(case.X) <= 400) else 1  # the statement holds whatever the number of worker processes
+    if n_jobs > 1:
+        tags.append("n_jobs_2")
+        counters["fits_with_n_jobs_2"] = 1
     if which == "ContinuousDiscretizer":
-        obj, e = common.guarded(lambda: ContinuousDiscretizer(quantitative_features=list(case.quant), min_freq=mf, copy=True))
+        obj, e = common.guarded(lambda: ContinuousDiscretizer(quantitative_features=list(case.quant), min_freq=mf, copy=True, n_jobs=n_jobs))
     else:
-        obj, e = common.guarded(gen.make_discretizer, case, which)
+        obj, e = common.guarded(gen.make_discretizer, case, which, n_jobs)
     if e is None:
         _, e = common.guarded(obj.fit, case.X, case.y)
     if e is not None:
